@@ -20,6 +20,27 @@ func runC17(c *Ctx) {
 	c.checkDistRange()
 	c.checkBranchClamp()
 	c.checkBrentPairs()
+	L.Rule("fresh-per-pair", "checkAmbiguities assigns both ambiguity masks of the pair from make(...) unconditionally (fresh, all-false masks for every pair) and stores true only under isAmbigu of the same position")
+	if r := c.fn("distance/protein", "", "checkAmbiguities"); r.ok() {
+		for _, fld := range []string{"seq1Ambigu", "seq2Ambigu"} {
+			ok := false
+			allInstrs(r.F, func(in ssa.Instruction) {
+				st, isSt := in.(*ssa.Store)
+				if !isSt {
+					return
+				}
+				if _, f, fa := fieldAddrOf(st.Addr); fa != nil && f == fld {
+					if _, isMk := st.Val.(*ssa.MakeSlice); isMk {
+						if all, _ := mustBeforeReturn(r.F, func(x ssa.Instruction) bool { return x == in }); all {
+							ok = true
+						}
+					}
+				}
+			})
+			L.Check(ok, "fresh-per-pair", r.label, "mask "+fld, c.P.Pos(r.F.Pos()), "assigned a fresh slice on every path", "the mask is not re-allocated for every pair: ambiguity flags of an earlier pair hide sites of later pairs")
+		}
+	}
+	L.Floor("fresh-per-pair", 2, "two masks")
 	c.checkFullScan("full-scan", "distance/protein", "selectedSites")
 	L.Floor("full-scan", 2, "site loop and sequence loop")
 	c.purityObligations("input-unmodified", []purityTarget{
